@@ -259,10 +259,9 @@ def d2_tiling(ctx):
 
 
 def _chns_parts(du, node, at):
+    from sa.struct import concat_parts
     v = expand_name(du, node, at)
-    if isinstance(v, ast.Subscript) and isinstance(v.value, ast.Attribute) and v.value.attr == "r_":
-        return list(v.slice.elts) if isinstance(v.slice, ast.Tuple) else [v.slice]
-    return None
+    return concat_parts(v)
 
 
 def d3_columns(ctx):
@@ -647,8 +646,10 @@ def d6_subset_string(ctx):
         gdef = [_S()]
     okg = False
     why = "not np.r_[0, <breaks> + 1, len]"
-    if isinstance(gv, ast.Subscript) and src(gv.value).endswith("r_") and isinstance(gv.slice, ast.Tuple) and len(gv.slice.elts) == 3:
-        e0, e1, e2 = gv.slice.elts
+    from sa.struct import concat_parts
+    gparts = concat_parts(gv)
+    if gparts is not None and len(gparts) == 3:
+        e0, e1, e2 = gparts
         first_ok = _cv(e0) == 0
         last_ok = (isinstance(e2, ast.Call) and call_name(e2) == "len" and loc_name(e2.args[0]) == P) or src(e2) in (f"{P}.size", f"{P}.shape[0]")
         mid_ok = False
